@@ -30,11 +30,14 @@ type c09Params struct {
 	Mod     bool  `json:"module"`   // innermost level lives in an imported module
 }
 
-var c09Kinds = []string{"抛出异常", "抛出错", "取样越界", "解析JSON", "除零", "索引越界", "未定义"}
+var c09Kinds = []string{"抛出异常", "抛出错", "取样越界", "解析JSON", "除零", "索引越界", "未定义", "抛出异常经别名", "抛出错经别名"}
+
+// c09Explicit: raised by a 抛出 statement (the message is the program's own)
+func c09Explicit(kind int) bool { return kind <= 1 || kind >= 7 }
 var c09Sites = []string{"语句", "如果", "每当", "遍历", "构造", "拦截内", "遍历字典", "调用在遍历内", "再如条件"}
 
 func c09ClassOf(kind int) string {
-	if kind == 1 {
+	if kind == 1 || kind == 8 {
 		return "错"
 	}
 	return "异常"
@@ -55,6 +58,11 @@ func c09Raise(kind int) []zn.Stmt {
 		return []zn.Stmt{zn.Throw{Class: "异常", Args: []zn.Expr{c09S(c09Msg)}}}
 	case 1:
 		return []zn.Stmt{zn.Throw{Class: "错", Args: []zn.Expr{c09S(c09Msg)}}}
+	case 7, 8:
+		// the exception type reached through another name: the exception is one of the TYPE, and
+		// is handled by the handlers for that type
+		return []zn.Stmt{zn.Decl{Pairs: []zn.DeclPair{{Names: []string{"别"}, Val: c09V(c09ClassOf(kind))}}},
+			zn.Throw{Class: "别", Args: []zn.Expr{c09S(c09Msg)}}}
 	case 2:
 		return []zn.Stmt{zn.ExprStmt{E: zn.MCall{Root: c09S("abc"), Chain: []zn.Call{{Name: "取样", Args: []zn.Expr{c09N(0), c09N(1)}}}}}}
 	case 3:
@@ -110,7 +118,7 @@ func c09Handlers(level int, p c09Params) []zn.Catch {
 	}
 	body := func() []zn.Stmt {
 		b := []zn.Stmt{c09Show(c09S("拦"), c09N(level))}
-		if p.Kind <= 1 {
+		if c09Explicit(p.Kind) {
 			b = append(b, c09Show(zn.This{Name: "内容"}))
 		}
 		switch p.Body {
@@ -126,7 +134,7 @@ func c09Handlers(level int, p c09Params) []zn.Catch {
 			// 输出 in that inner handler), then goes on: 其 is still the OUTER exception and the
 			// handler runs to its own 输出
 			b = append(b, c09Show(c09S("内处"), zn.Call{Name: "内处"}))
-			if p.Kind <= 1 {
+			if c09Explicit(p.Kind) {
 				b = append(b, c09Show(zn.This{Name: "内容"}))
 			}
 			b = append(b, c09Show(c09S("拦后"), c09N(level)), zn.Return{Val: c09N(3000 + level)})
@@ -286,7 +294,7 @@ func c09Repeat(kind, n int) *mc.Failure {
 	if kind == 3 {
 		pre = "导入《@JSON》\n"
 	}
-	if kind == 1 {
+	if kind == 1 || kind == 8 {
 		pre += "定义错：\n    其内容 = “”\n如何新建错？\n    输入M\n    其内容 = M\n"
 	}
 	var body strings.Builder
@@ -489,7 +497,7 @@ func init() {
 	mc.Register(&mc.Check{
 		ID:    "C09",
 		Level: "exploration",
-		Rule:  "E1 exhaustive over the product: raise kind {抛出异常, 抛出 custom type, failing built-in (取样 out of range), failing library call (解析JSON), 1 / 0, index out of range, undefined name} x raise site {statement, in 如果, in 每当, in 遍历 over a list, in 遍历 over a dictionary, in a constructor, inside a handler, statement with every caller's call inside a 遍历 loop of the caller, in the condition of a 再如 branch} x call depth 0..D x handler placement per level {none, matching, non-matching, non-matching+matching, matching+non-matching} x handler body {no 输出, 输出 v, raises again, no 输出 but a valued expression as last statement, calls a method that raises and handles an exception of its own and then goes on using 其} x level 1 plain method / method of an object x innermost level in the main file / in an imported module; every program runs follow-up probes after the handled call: caller locals, caller's 其, a callee local that must be gone (guarded read), a second call of the same chain, final result; on in-memory runs also the VM's call depth and scope depth. Plus, for every raise kind, a method that raises and handles N = 1, 2, 10, 100, 1000, 5000, 20000 times in one run: afterwards ordinary expressions have their values, every block has ended, no call is left open. Oracle: reference interpreter. Distinct by construction; non-trivial = at least one handler present.",
+		Rule:  "E1 exhaustive over the product: raise kind {抛出异常, 抛出 custom type, both also through a variable that holds the type, failing built-in (取样 out of range), failing library call (解析JSON), 1 / 0, index out of range, undefined name} x raise site {statement, in 如果, in 每当, in 遍历 over a list, in 遍历 over a dictionary, in a constructor, inside a handler, statement with every caller's call inside a 遍历 loop of the caller, in the condition of a 再如 branch} x call depth 0..D x handler placement per level {none, matching, non-matching, non-matching+matching, matching+non-matching} x handler body {no 输出, 输出 v, raises again, no 输出 but a valued expression as last statement, calls a method that raises and handles an exception of its own and then goes on using 其} x level 1 plain method / method of an object x innermost level in the main file / in an imported module; every program runs follow-up probes after the handled call: caller locals, caller's 其, a callee local that must be gone (guarded read), a second call of the same chain, final result; on in-memory runs also the VM's call depth and scope depth. Plus, for every raise kind, a method that raises and handles N = 1, 2, 10, 100, 1000, 5000, 20000 times in one run: afterwards ordinary expressions have their values, every block has ended, no call is left open. Oracle: reference interpreter. Distinct by construction; non-trivial = at least one handler present.",
 		Assumptions: []string{
 			"reference semantics from manual ch.4: runtime faults and failing built-ins are exceptions of class 异常; handler value is its 输出 or 空",
 			"the message text of faults / built-in failures is not compared (其内容 is displayed only for 抛出 with a known message)",
@@ -499,7 +507,7 @@ func init() {
 			if tier == "thorough" {
 				return 20 * time.Minute
 			}
-			return 100 * time.Second
+			return 300 * time.Second
 		},
 		Run: func(c *mc.Ctx) {
 			D := 2
